@@ -1078,7 +1078,7 @@ def setle(info, a):
     e = []
     a0 = ExprInt_from(a, 0)
     a1 = ExprInt_from(a, 1)
-    e.append(ExprAff(a, ExprOp("&",
+    e.append(ExprAff(a, ExprOp("|",
                                ExprCond(zf, a1, a0),
                                ExprCond(nf-of, a1, a0)))
              )
@@ -1088,7 +1088,7 @@ def setna(info, a):
     e = []
     a0 = ExprInt_from(a, 0)
     a1 = ExprInt_from(a, 1)
-    e.append(ExprAff(a, ExprOp('&',
+    e.append(ExprAff(a, ExprOp('|',
                                ExprCond(cf, a1, a0),
                                ExprCond(zf, a1, a0)))
              )
